@@ -2,6 +2,7 @@
 From Coq Require Import String ZArith List.
 From NX Require Import Bytes Frame Wire Request Info Utf8 Info_proofs Records Records_proofs
   Pinned_parse Pinned_parserecv Pinned_dev.
+From NX Require PyLite Src_all Src_serialframe_proofs Src_frame_corollaries Src_info_proofs Src_info_corollaries.
 Open Scope list_scope.
 Open Scope Z_scope.
 
@@ -56,6 +57,65 @@ Theorem C06_derived_device : forall chmax flags rx,
   get r "ack_supported"%string = Some (PBool (Z.odd (flags / 2))).
 Proof. exact dev_derived. Qed.
 
+(** ** end to end on the source as it is now: the device-side encoder of parserecv.py, the
+    frame codec of serialframe.py and the client-side decoder of parse.py, each as the
+    regenerated abstract syntax run by the PyLite interpreter (any fuel above the constant).
+    [dev_obj] / [emb_chan] are the Device / DeviceChannel objects exactly as the interpreted
+    constructors build them (the construct_ theorems of Src_info_proofs), [cmninfo_obj] / [ack_obj] the
+    ParseCmninfo / ParseAck records. *)
+Section OnSource.
+Import PyLite Src_all Src_serialframe_proofs Src_frame_corollaries Src_info_proofs Src_info_corollaries.
+Open Scope string_scope.
+Open Scope list_scope.
+
+Theorem C06_cmninfo_src : forall n cbv chmax flags rxpadding chans,
+  u8 chmax -> u8 flags -> u8 rxpadding ->
+  exists payload,
+    call_method program (3 + n) (pr cbv) "frame_cmninfo_encode" [dev_obj chmax flags rxpadding chans] =
+      PyLite.Ok (PBytes (wire 2 payload), pr cbv) /\
+    call_method program (3 + n) sf "frame_decode" [PBytes (wire 2 payload)] =
+      PyLite.Ok (frame_obj (enum_id 2) payload noerr, sf) /\
+    call_method program (1 + n) pa "frame_cmninfo_decode" [frame_obj (enum_id 2) payload noerr] =
+      PyLite.Ok (cmninfo_obj (chmax, flags, rxpadding), pa).
+Proof. exact src_cmninfo_end_to_end. Qed.
+
+Theorem C06_chinfo_src : forall n cbv chan chan' c (text : list N) k,
+  cfg_ok c -> Info.c_name c = text ++ repeat 0%N k ->
+  valid_text text -> Forall (fun x => x <> 0%N) text -> name_fits (Info.c_name c) ->
+  exists payload,
+    call_method program (3 + n) (pr cbv) "frame_chinfo_encode" [emb_chan chan c] =
+      PyLite.Ok (PBytes (wire 3 payload), pr cbv) /\
+    call_method program (3 + n) sf "frame_decode" [PBytes (wire 3 payload)] =
+      PyLite.Ok (frame_obj (enum_id 3) payload noerr, sf) /\
+    call_method program (5 + n) pa "frame_chinfo_decode" [frame_obj (enum_id 3) payload noerr; PInt chan'] =
+      PyLite.Ok (emb_chan chan' (Info.mkChan (Info.c_en c) (Info.c_type c) (Info.c_vdim c) (Info.c_div c) (Info.c_mlen c) text), pa).
+Proof. exact src_chinfo_end_to_end. Qed.
+
+Theorem C06_ack_src : forall n cbv r, i32 r ->
+  exists payload,
+    call_method program (2 + n) (pr cbv) "frame_ack_encode" [PInt r] =
+      PyLite.Ok (PBytes (wire 4 payload), pr cbv) /\
+    call_method program (3 + n) sf "frame_decode" [PBytes (wire 4 payload)] =
+      PyLite.Ok (frame_obj (enum_id 4) payload noerr, sf) /\
+    call_method program (1 + n) pa "frame_ack_decode" [frame_obj (enum_id 4) payload noerr] =
+      PyLite.Ok (ack_obj (if (r =? 0)%Z then (true, 0) else (false, r)), pa).
+Proof. exact src_ack_end_to_end. Qed.
+
+(** the decoders are the model on EVERY frame (wrong ids, short and malformed payloads, None) *)
+Theorem C06_chinfo_decode_refines_src : forall n fid data chan,
+  call_method program (5 + n) pa "frame_chinfo_decode"
+    [frame_obj (enum_id fid) data (perr_obj "NOERR" 0); PInt chan] =
+  emb_opt (emb_chan chan) pa (Info.frame_chinfo_decode fid data).
+Proof. exact frame_chinfo_decode_spec. Qed.
+
+(** the client's channel record as the interpreted DeviceChannel constructor builds it:
+    derived attributes for EVERY type value *)
+Theorem C06_channel_record_src : forall n chan typ vdim name en div mlen,
+  construct program (4 + n) "DeviceChannel" [PInt chan; PInt typ; PInt vdim; PStr name; en; PInt div; PInt mlen] =
+  PyLite.Ok (chan_obj chan typ vdim name (truthy en) div mlen).
+Proof. exact construct_DeviceChannel. Qed.
+End OnSource.
+
 Example C06_example :
   frame_chinfo_decode 3 [1; 130; 2; 200; 4; 197; 188; 0]%N =
     Ok (Some (mkChan true 130 2 200 4 [380%N])).
@@ -66,3 +126,6 @@ Print Assumptions C06_chinfo.
 Print Assumptions C06_ack.
 Print Assumptions C06_derived_channel.
 Print Assumptions C06_derived_device.
+Print Assumptions C06_chinfo_src.
+Print Assumptions C06_cmninfo_src.
+Print Assumptions C06_ack_src.
